@@ -27,6 +27,8 @@ class World(object):
 
     def reset(self):
         self.streams = []
+        self.texts_read = []
+        self.texts_parsed = []
 
     def new_stream(self, origin, name_kind='str'):
         s = PObj(object, name='%s#%d' % (origin, len(self.streams)))
@@ -35,7 +37,11 @@ class World(object):
         def close(eng, args, kwargs):
             s.ghost['closes'] += 1
         s.fields['close'] = PExt('close', close)
-        s.fields['read'] = PExt('read', lambda e, a, k: e.fresh(Str, 'text'), raises=(Boom,))
+        def read(e, a, k):
+            t = e.fresh(Str, 'text')
+            self.texts_read.append(t)
+            return t
+        s.fields['read'] = PExt('read', read, raises=(Boom,))
         s.fields['write'] = PExt('write', None, raises=(Boom,))
         s.fields['writelines'] = PExt('writelines', None, raises=(Boom,))
         if name_kind == 'str':
@@ -83,6 +89,7 @@ def build(module):
     class ParserModel(object):
         def make(self, name):
             def eff(e, a, k):
+                w.texts_parsed.append(a[0] if a else None)
                 r = PObj(object, name='tree')
                 r.fields['sourcepath'] = None
                 return r
@@ -98,13 +105,14 @@ def build(module):
     def propagated(eng, exc):
         return isinstance(exc, PExc) and exc.cls is Boom and exc.tag is not None
     env['relabelled'] = Helper(relabelled)
+    env['parsed_what_was_read'] = Helper(lambda e: len(w.texts_read) == 1 and len(w.texts_parsed) == 1 and w.texts_parsed[0] is w.texts_read[0])
     env['propagated'] = Helper(propagated)
 
     cs = []
     for kind, sty in (('factory', Factory(w)), ('open stream', OpenStream(w)), ('open stream without name', OpenStream(w, 'none'))):
         cs.append(Contract(
             MODULE + ':read', params={'parser': ParserModel(), 'stream': sty},
-            ensures=['closed_right()', 'result.sourcepath == %r' % (None if 'without' in kind else 'stream.js')],
+            ensures=['closed_right()', 'result.sourcepath == %r' % (None if 'without' in kind else 'stream.js'), 'parsed_what_was_read()'],
             raises={'ECMASyntaxError': 'closed_right() and relabelled(__exc__)',
                     'Boom': 'closed_right() and propagated(__exc__)'},
             env=env, notes=kind))
